@@ -32,11 +32,11 @@ type e2eObs struct {
 	Location        string `json:"location,omitempty"`
 	WWWAuthenticate string `json:"www_authenticate,omitempty"`
 	// every WWW-Authenticate value of the response, sorted
-	WWWAll []string `json:"www_authenticate_all,omitempty"`
-	ContentType     string `json:"content_type,omitempty"`
-	Body            string `json:"body,omitempty"`
-	RPCErr          string `json:"rpc_error,omitempty"`
-	UpstreamHits    int    `json:"upstream_hits"`
+	WWWAll       []string `json:"www_authenticate_all,omitempty"`
+	ContentType  string   `json:"content_type,omitempty"`
+	Body         string   `json:"body,omitempty"`
+	RPCErr       string   `json:"rpc_error,omitempty"`
+	UpstreamHits int      `json:"upstream_hits"`
 }
 
 type e2eCase struct {
@@ -69,6 +69,11 @@ var e2eRules = []e2eRule{
 		{"error_handler": "redir", "if": "type(Error) == authorization_error"},
 		{"error_handler": "def"},
 	}, []string{"www if authentication_error", "redir if authorization_error", "def"}},
+	// only conditional handlers: for most failures none of them applies, the failure is then answered by its kind
+	{"r-condonly", "/condonly/:x", []config.MechanismConfig{
+		{"error_handler": "www", "if": "type(Error) == authentication_error"},
+		{"error_handler": "redir", "if": "type(Error) == authorization_error"},
+	}, []string{"www if authentication_error", "redir if authorization_error"}},
 }
 
 type entryPoint struct {
@@ -339,6 +344,10 @@ func judgeE2E(r *core.Run, c *e2eCase, outcome string, st *stats) {
 	if success {
 		fail("success-on-failure", fmt.Sprintf("failure answered with success (status %d)", o.Status))
 		return
+	}
+	if c.HandlerRan == "" && c.Rule == "r-condonly" {
+		st.add("no_applicable_error_handler", 1)
+		c.HandlerRan = "def" // no handler of the rule applies: the service translates the failure itself, exactly as the default handler does
 	}
 	switch c.HandlerRan {
 	case "www", "www2":
